@@ -26,13 +26,20 @@ def _set_points():
     import diameter.node.node as nn
     import diameter.node.application as aa
     sk.install()
-    sk.set_line_points({
-        sk.code_of(hh.SequenceGenerator, "next_sequence"): None,
-        sk.code_of(hh.SessionGenerator, "next_id"): None,
+    pts = {}
+    for cls in (hh.SequenceGenerator, hh.SessionGenerator):
+        # every function of the generator classes (helpers that a refactoring adds included), not only the two entry points
+        for c in cls.__mro__[:-1]:
+            for v in vars(c).values():
+                f = v.fget if isinstance(v, property) else getattr(v, "__func__", v)
+                if hasattr(f, "__code__") and f.__name__ != "__init__":
+                    pts[f.__code__] = None
+    pts.update({
         sk.code_of(nn.Node, "route_request"): None,
         sk.code_of(nn.Node, "send_dwr"): None,
         sk.code_of(aa.Application, "send_request"): None,
     })
+    sk.set_line_points(pts)
 
 
 def succ(v, mx):
@@ -211,6 +218,30 @@ def sweep(rep: Report):
                 if g.sequence >> 20 != (t & 0xfff) or g.sequence & 0xfffff != low or not 0 < g.sequence <= MAX32:
                     rep.add(Violation("seq:end-to-end-init-bits", f"include_now={t:#x} low={low:#x} gives {g.sequence:#x}",
                                       {"kind": "init", "t": t, "low": low}))
+        # a generator seeded with a start time is an ordinary 32-bit counter afterwards: successors across the 20-bit boundary
+        for t in (1, 0xfff, 1_700_000_000 + 0xabc, 0xffffffff):
+            for low in (0xffffd, 0xffffe, 0xfffff):
+                w.rand_plan.clear()
+                w.rand_plan.append(low)
+                g = hh.SequenceGenerator(include_now=t)
+                cur = g.sequence
+                for k in range(5):
+                    v = g.next_sequence()
+                    cur = succ(cur, MAX32)
+                    n += 1
+                    if v != cur:
+                        rep.add(Violation("seq:time-seeded-successor", f"include_now={t:#x} low={low:#x} draw {k}: got {v:#x} want {cur:#x}",
+                                          {"kind": "init-succ", "t": t, "low": low}))
+                        break
+        w.rand_plan.clear()
+        w.rand_plan.append(0xffff0)
+        g = hh.SequenceGenerator(include_now=1_700_000_000 + 0x5a5)
+        seen = set()
+        for _ in range((1 << 20) + 64):
+            seen.add(g.next_sequence())
+        n += (1 << 20) + 64
+        if len(seen) != (1 << 20) + 64 or 0 in seen:
+            rep.add(Violation("seq:2^20-successive-of-a-time-seeded-generator-not-distinct", f"{len(seen)} distinct of {(1 << 20) + 64}", {"kind": "long20"}))
         # the node wires its start time into its end-to-end generator
         from diameter.node import Node
         for t in (1_700_000_000.0, 1_700_000_000.0 + 0xabc, 1_700_004_095.0):
